@@ -185,13 +185,21 @@ def check_history(ctx, case) -> None:
 
 @st.composite
 def cases(draw, maxlen=30):
-    lo, hi = draw(st.sampled_from([(0.0, 1.0), (-2.5, 4.0), (10.0, 10.5)]))
-    inside = lo + (hi - lo) * draw(st.sampled_from([0.0, 0.25, 0.5, 1.0]))
-    outside = draw(st.sampled_from([lo - 1.0, hi + 3.0]))
+    lo, hi = draw(st.sampled_from([(0.0, 1.0), (-2.5, 4.0), (10.0, 10.5), (0.0, 1.0), (0.0, math.inf), (-math.inf, 10.0)]))
+    if math.isinf(lo) or math.isinf(hi):  # a range with one infinite bound still clips at the finite one
+        flo, fhi = (lo, lo + 5.0) if math.isinf(hi) else (hi - 5.0, hi)
+        inside = draw(st.sampled_from([flo + 1.0, fhi - 1.0]))
+        outside = lo - 1.0 if math.isinf(hi) else hi + 3.0
+        span = (flo, fhi)
+    else:
+        inside = lo + (hi - lo) * draw(st.sampled_from([0.0, 0.25, 0.5, 1.0]))
+        outside = draw(st.sampled_from([lo - 1.0, hi + 3.0]))
+        span = (lo, hi)
     setting = {"lock_previous": draw(st.booleans()), "lock_range": draw(st.booleans()),
                "default": draw(st.sampled_from([math.nan, inside, outside])), "min": lo, "max": hi}
     variant = draw(st.sampled_from(["scripted", "scripted", "engine"]))
-    val = st.one_of(st.just(math.nan), st.just(math.nan), st.floats(lo, hi), st.sampled_from([lo - 0.5, hi + 0.5, lo, hi]),
+    val = st.one_of(st.just(math.nan), st.just(math.nan), st.floats(*span),
+                    st.sampled_from([span[0] - 0.5, span[1] + 0.5, span[0], span[1]]),
                     st.sampled_from([math.inf, -math.inf]))
     op = st.one_of(
         st.tuples(st.just("scalar"), st.lists(val, min_size=1, max_size=1), st.sampled_from(["0d", "f64"])).map(list),
